@@ -19,14 +19,20 @@ class C07(Prop):
              "between credential pointers, every password slot of the returned view holds \"\" or the placeholder, "
              "every read of the live configuration is unchanged (the slots written lie in cells allocated by the "
              "clone), and the view's password cells are disjoint from everything the live configuration reaches; "
-             "(2) httpp.dumpRequest modelled byte-exactly: the dump is invariant under any change of the values of a "
-             "header of the redaction set (noninterference; only the number of values shows), any other header is "
-             "written verbatim, and net/http's canonicalisation maps every letter-case variant of a name of the set "
-             "to the spelling the set contains. Tied to the code by running the real redactCredentials and the four "
+             "(2) httpp.dumpRequest modelled byte-exactly, the request carrying its body READER (the bytes it delivers "
+             "and how the stream ends: EOF, a non-EOF error alone, or an error together with the last bytes): for "
+             "every request and every body reader the dump - and the '[conn a] [c->s] ...' line handlerLogger writes - "
+             "is invariant under any change of the values of a header of the redaction set (noninterference; only the "
+             "number of values shows); a request whose body cannot be read (error before 10 KiB+1 bytes went through "
+             "the LimitReader, or with byte 10 KiB+1: exactly characterised) is not dumped at all; an error past the "
+             "peek limit never shows; any header outside the set is written verbatim, and net/http's canonicalisation "
+             "maps every letter-case variant of a name of the set to the spelling the set contains. Tied to the code by running the real redactCredentials and the four "
              "real configuration GET handlers on configurations loaded by conf.Load (internal users with plain / "
              "sha256 / argon2 passwords, deprecated per-path and default credentials), scanning every answer for "
-             "every generated secret and comparing the live configuration before/after; and the real dumpRequest on "
-             "requests parsed by http.ReadRequest.",
+             "every generated secret and comparing the live configuration before/after; and the real dumpRequest, and the real "
+             "handlerLogger.ServeHTTP with a capturing logger (every message of every level scanned), on requests parsed "
+             "by http.ReadRequest whose bodies end cleanly or fail (short Content-Length, broken chunked encoding, "
+             "scripted readers failing before / at / after the peek limit).",
         note="Secrets = what the property statement names (internal users' passwords, deprecated publish/read "
              "passwords; Authorization, Cookie, Proxy-Authorization, Set-Cookie, X-Api-Key, X-Auth-Token header "
              "values). NOT redacted by the code and outside the statement (observed on the real handlers, see "
@@ -43,13 +49,22 @@ class C07(Prop):
             "pathDefaults/path publishPass/readPass, 0-4 paths incl. regexp and all/all_others), loaded by the real "
             "conf.Load; live configuration shipped with pointer identities (shared credential pointers between "
             "pathDefaults and paths as conf.Validate leaves them). Requests: raw HTTP/1.x text with credential header "
-            "names in random letter case, repeated credential headers, near-miss names, bodies around the 10 KiB cap. "
+            "names in random letter case, repeated credential headers, near-miss names, realistic Content-Type values "
+            "(application/sdp, trickle-ice-sdpfrag, json), WHIP/WHEP/API URIs; 2/3 dumped by dumpRequest, 1/3 served through "
+            "handlerLogger.ServeHTTP with a capturing logger. Body readers: none; exact Content-Length (lengths around "
+            "the 10 KiB cap); Content-Length larger than what is sent (net/http: unexpected EOF); well-formed chunked; "
+            "chunked broken after 0..20480 good bytes (bad size line, stream cut, chunk cut, missing CRLF); scripted "
+            "readers delivering 0 / 1 / 100 / 10239..10242 / 20000 bytes in chunks of 7..1M bytes and ending with EOF, "
+            "EOF with the last bytes, a non-EOF error alone, or an error with the last bytes (classes *-body-read-error, "
+            "*-body-error-past-cap, *-truncated-body). "
             "Header keys: random over the token alphabet and invalid bytes. Non-trivial = a non-empty password in the "
             "view / a credential header present / a key changed by canonicalisation")
     trusted_base = ["Coq 8.16.1 kernel + VM (vm_compute for cases)",
                     "in-package Go drivers internal/api/zz_verif_c07_test.go, internal/protocols/httpp/zz_verif_c07_test.go",
                     "models Model/C07_Redact.v (over Lib/Heap.v, Model/C11_Clone.v) and Model/C07_Dump.v hand-written, tied by correspondence",
                     "oracle: net/http request parsing (http.ReadRequest) produces the header map the dump model receives; "
+                    "oracle: what net/http's body readers (Content-Length / chunked) deliver and whether they end with an "
+                    "error is observed with io.ReadAll on a second parse of the same text; "
                     "textproto.CanonicalMIMEHeaderKey is modelled and compared",
                     "encoding/json + gin for the handler answers (scanned for the secrets, not modelled)"]
     assumptions = ["the projection users/pathDefaults/paths contains every field redactCredentials reads or writes",
